@@ -47,3 +47,10 @@ Theorem C12_out_of_scope_guards :
      "assertion/function/functioncontracts/analyzer.go:Analyzer"]%string = true.
 Proof. exact (conj analyzers_guarded fact_analyzers_guarded). Qed.
 Print Assumptions C12_out_of_scope_guards.
+
+(* over the regenerated inventory of loops over the package's files: each loop body starts by consulting
+   IsFileInScope (named exceptions: file lookups by name, the experimental v2 collector, grouping, nolint) *)
+Theorem C12_file_loops_guarded :
+  forallb (fun a : string * bool => snd a || existsb (String.eqb (fst a)) file_loop_exempt) file_loops_gen = true.
+Proof. exact file_loops_guarded. Qed.
+Print Assumptions C12_file_loops_guarded.
